@@ -31,9 +31,9 @@
 (***************************************************************************)
 EXTENDS Naturals, Integers, Sequences, FiniteSets, TLC, SequencesExt, Functions   \* Range(f) is from Functions
 
-CONSTANTS Parts, Nodes, HiMod, LoMod, Retain
+CONSTANTS Parts, Nodes, HiMod, LoMod, Retain,
+          NoLeader   \* value of the metadata view for a partition without leader (not in Nodes)
 
-NoLeader == "noleader"
 NoSeq == <<-1, -1>>
 
 VARIABLES
